@@ -465,6 +465,25 @@ func run(c *fw.Ctx, idx int) {
 		checkShardedPins(ctx, c, cfg, p, allocs, sh)
 	}
 
+	// 3b. a shard size below the biggest block: the add must fail, or - if an
+	// implementation finds a way - every shard must still be under the limit
+	if maxBlock > 64 && len(plain.rc.blocks) >= 2 && !bigShard {
+		pu := *p
+		pu.Shard = true
+		pu.ShardSize = uint64(maxBlock - r.Intn(maxBlock/2))
+		us := doAdd(ctx, t, &pu, allocs, 0, false)
+		c.Eval(fmt.Sprintf("sharded-undersized/ok=%v", us.err == nil))
+		if us.err == nil {
+			checkShardedPins(ctx, c, cfg+"/undersized-shards", &pu, allocs, us)
+		} else {
+			for _, pin := range us.rc.pins {
+				if pin.Cid.Equals(plain.root) {
+					c.Violation("C13/sharded/failed-add-pinned-root", "the sharded add failed ("+us.err.Error()+") but the root was pinned", cfg)
+				}
+			}
+		}
+	}
+
 	// 4. faults: a BlockPut failure at call k
 	for _, sharded := range []bool{false, true} {
 		p.Shard = sharded
